@@ -80,7 +80,12 @@ def field_text(width, min_len=0):
 @st.composite
 def bcd_timestamp(draw):
     # every nibble 0-9: (non-BCD nibbles are outside the claim)
-    realistic = draw(st.booleans())
+    kind = draw(st.integers(0, 9))
+    if kind == 0:
+        # boundary stamps: never filled in (all zero), all nines, one field set
+        return draw(st.sampled_from([bytes(8), b'\x99' * 8, bytes(7) + b'\x01', b'\x00\x01' + bytes(6),
+                                     M.timestamp(0, 0, 0, 0, 0, 0, 0), M.timestamp(1, 1, 1), M.timestamp(999, 12, 31)]))
+    realistic = kind < 5
     if realistic:
         return M.timestamp(draw(st.integers(1970, 2099)), draw(st.integers(1, 12)),
                            draw(st.integers(1, 31)), draw(st.integers(0, 23)),
